@@ -504,5 +504,382 @@ theorem castFloatFromUint_spec {F : FloatFmt} (hF : F.Valid) (W : Nat) (dbg : Bo
         rw [Nat.sub_self, Nat.add_zero]; congr 1; omega
 
 
+theorem posInf_lt {F : FloatFmt} (hF : F.Valid) : posInf F.spec < 2 ^ (F.bits - 1) := by
+  obtain ⟨hem2, hem4, hem30⟩ := emax_facts hF
+  obtain ⟨hp, hb, hx, hem⟩ := hF
+  unfold posInf FloatFmt.spec; simp only
+  have : 2 ^ (F.bits - 1) = (2 * F.emax) * 2 ^ (F.p - 1) := by
+    rw [hem2, ← Nat.pow_add]; congr 1; omega
+  rw [this]
+  exact Nat.mul_lt_mul_of_pos_right (by omega) (Nat.pow_pos (by decide))
+
+/-- every result of the integer → float spec is a non-negative float `≤ +∞` -/
+theorem natToFloat_le {F : FloatFmt} (hF : F.Valid) (v : Nat) : natToFloat F.spec v ≤ posInf F.spec := by
+  have hp1 : 1 ≤ F.p := by have := hF.hp; omega
+  by_cases hv : v = 0
+  · subst hv; simp [natToFloat, rne, size, encodeNat]
+  · obtain ⟨e, m, _, hm1, hm2, hval, hcase⟩ := roundMantissa_spec hF 0 true hv
+    show encodeNat F.spec (rne F.p v) ≤ _
+    by_cases hlt : e < F.emax
+    · rw [encodeNat_eq (F := F.spec) hp1 hm1 hm2 hval hlt]
+      unfold posInf FloatFmt.spec; simp only
+      have h2 : m - 2 ^ (F.p - 1) < 2 ^ (F.p - 1) := by
+        rw [pow_split (show F.p - 1 ≤ F.p by omega), show F.p - (F.p - 1) = 1 by omega] at hm2; omega
+      have h3 : (e + F.emax - 1) + 1 ≤ 2 * F.emax - 1 := by omega
+      have h4 := Nat.mul_le_mul_right (2 ^ (F.p - 1)) h3
+      rw [Nat.add_mul] at h4; omega
+    · unfold encodeNat; split
+      · exact Nat.zero_le _
+      · split
+        · exact Nat.le_refl _
+        · next h0 hfin =>
+          exfalso; apply hfin
+          have hpos : 0 < 2 ^ (F.p - 1) := Nat.pow_pos (by decide)
+          have : 2 ^ F.emax * 2 ^ (F.p - 1) ≤ rne F.p v * 2 ^ (F.p - 1) := by
+            rw [hval, Nat.mul_comm]
+            exact Nat.mul_le_mul hm1 (Nat.pow_le_pow_right (by decide) (by omega))
+          exact Nat.le_of_mul_le_mul_right this hpos
+
+theorem patUnsignedAbs_eq {W pat : Nat} (hW : 1 ≤ W) (hpat : pat < 2 ^ W) :
+    patUnsignedAbs W pat = (toInt (2 ^ W) pat).natAbs ∧
+      (patIsNegative W pat = true ↔ toInt (2 ^ W) pat < 0) := by
+  have h2 : 2 ^ W = 2 * 2 ^ (W - 1) := by
+    rw [pow_split hW]; simp
+  have hpos : 0 < 2 ^ (W - 1) := Nat.pow_pos (by decide)
+  unfold patUnsignedAbs patIsNegative toInt
+  generalize 2 ^ W = m at *; generalize 2 ^ (W - 1) = h at *
+  by_cases hc : h ≤ pat
+  · have hn : ¬ 2 * pat < m := by omega
+    have hmod : (m - pat) % m = m - pat := Nat.mod_eq_of_lt (by omega)
+    simp only [hc, hn, decide_true, if_true, if_false, hmod]
+    constructor
+    · omega
+    · simp; omega
+  · have hn : 2 * pat < m := by omega
+    simp only [hc, hn, decide_false, if_true, Bool.false_eq_true, if_false]
+    constructor
+    · omega
+    · simp
+
+/-- `CastFrom<BInt<N>> for f32/f64`: the float nearest to the signed value, sign-symmetric -/
+theorem floatFromBInt_spec {F : FloatFmt} (hF : F.Valid) {W : Nat} (hW : 1 ≤ W) (dbg : Bool) {pat : Nat}
+    (hpat : pat < 2 ^ W) :
+    floatFromBInt F W dbg pat = .ok (intToFloat F.spec (toInt (2 ^ W) pat)) := by
+  obtain ⟨habs, hneg⟩ := patUnsignedAbs_eq hW hpat
+  unfold floatFromBInt intToFloat
+  rw [castFloatFromUint_spec hF, habs]; simp only
+  have hle := natToFloat_le hF (toInt (2 ^ W) pat).natAbs
+  have hlt := posInf_lt hF
+  by_cases h : toInt (2 ^ W) pat < 0
+  · rw [if_pos (hneg.2 h), if_pos h]
+    unfold neg isSignNegative signBit
+    rw [show F.spec.bits = F.bits from rfl]
+    rw [decide_eq_false (by omega)]; simp only [Bool.false_eq_true, if_false]; rw [Nat.add_comm]
+  · have : ¬ patIsNegative W pat = true := fun h' => h (hneg.1 h')
+    rw [if_neg this, if_neg h]
+
+
+/-! ### float → integer -/
+
+theorem mask_shr {n j : Nat} (h : j ≤ n) : (2 ^ n - 1) >>> j = 2 ^ (n - j) - 1 := by
+  rw [Nat.shiftRight_eq_div_pow, pow_split h]
+  have hj : 0 < 2 ^ j := Nat.pow_pos (by decide)
+  have ht : 0 < 2 ^ (n - j) := Nat.pow_pos (by decide)
+  generalize 2 ^ j = a at *; generalize 2 ^ (n - j) = t at *
+  obtain ⟨t', rfl⟩ : ∃ t', t = t' + 1 := ⟨t - 1, by omega⟩
+  have : a * (t' + 1) - 1 = (a - 1) + a * t' := by rw [Nat.mul_add]; omega
+  rw [this, Nat.add_mul_div_left _ _ hj, Nat.div_eq_of_lt (by omega)]; omega
+
+/-- the three fields of a pattern -/
+theorem fields {F : FloatFmt} (hF : F.Valid) {x : Nat} (hx : x < 2 ^ F.bits) :
+    let E := expField F.spec x
+    let f := fracField F.spec x
+    E < 2 * F.emax ∧ f < 2 ^ (F.p - 1) ∧ absBits F x = E * 2 ^ (F.p - 1) + f ∧
+      intoRawParts F x = (signOf F.spec x, E, f) := by
+  intro E f
+  obtain ⟨hem2, hem4, hem30⟩ := emax_facts hF
+  obtain ⟨hp, hb, hxx, hem⟩ := hF
+  have hP : 0 < 2 ^ (F.p - 1) := Nat.pow_pos (by decide)
+  have hsb : 2 ^ (F.bits - 1) = 2 ^ (F.p - 1) * (2 * F.emax) := by
+    rw [hem2, ← Nat.pow_add]; congr 1; omega
+  have hE : E = x % 2 ^ (F.bits - 1) / 2 ^ (F.p - 1) := rfl
+  have hf : f = x % 2 ^ (F.p - 1) := rfl
+  have hf' : f = x % 2 ^ (F.bits - 1) % 2 ^ (F.p - 1) := by
+    rw [hf, Nat.mod_mod_of_dvd _ (Nat.pow_dvd_pow 2 (by omega))]
+  have hablt : x % 2 ^ (F.bits - 1) < 2 ^ (F.bits - 1) := Nat.mod_lt _ (Nat.pow_pos (by decide))
+  refine ⟨?_, ?_, ?_, ?_⟩
+  · rw [hE, Nat.div_lt_iff_lt_mul hP, Nat.mul_comm, ← hsb]; exact hablt
+  · rw [hf]; exact Nat.mod_lt _ hP
+  · unfold absBits; rw [hE, hf', Nat.mul_comm]; exact (Nat.div_add_mod _ _).symm
+  · unfold intoRawParts isSignNegative
+    dsimp only
+    rw [mask_shr (show 1 ≤ F.bits by omega), mask_shr (show F.bits - (F.p - 1) ≤ F.bits by omega),
+      Nat.and_two_pow_sub_one_eq_mod, Nat.and_two_pow_sub_one_eq_mod, Nat.shiftRight_eq_div_pow,
+      show F.bits - (F.bits - (F.p - 1)) = F.p - 1 by omega]
+    rfl
+
+theorem nan_inf_iff {F : FloatFmt} (hF : F.Valid) {x : Nat} (hx : x < 2 ^ F.bits) :
+    isNan F x = Spec.isNaN F.spec x ∧ isInfinite F x = Spec.isInf F.spec x := by
+  obtain ⟨hE, hf, habs, _⟩ := fields hF hx
+  obtain ⟨hem2, hem4, hem30⟩ := emax_facts hF
+  unfold isNan isInfinite Spec.isNaN Spec.isInf
+  rw [habs, infinity_eq hF]; unfold posInf
+  show (decide ((2 * F.emax - 1) * 2 ^ (F.p - 1) < _) = _) ∧ (decide (_ = (2 * F.emax - 1) * 2 ^ (F.p - 1)) = _)
+  show (_ = (expField F.spec x == 2 * F.emax - 1 && _)) ∧ (_ = (expField F.spec x == 2 * F.emax - 1 && _))
+  generalize expField F.spec x = E at *
+  generalize fracField F.spec x = f at *
+  generalize 2 ^ (F.p - 1) = P at *
+  have key : ∀ a b : Bool, (a = true ↔ b = true) → a = b := fun a b h => by
+    cases a <;> cases b <;> simp_all
+  by_cases hEK : E = 2 * F.emax - 1
+  · subst hEK
+    constructor <;> apply key <;>
+      simp only [decide_eq_true_eq, Bool.and_eq_true, beq_iff_eq, bne_iff_ne, ne_eq, true_and] <;>
+      constructor <;> intro h <;> omega
+  · have h1 : (E + 1) * P ≤ (2 * F.emax - 1) * P := Nat.mul_le_mul_right _ (by omega)
+    rw [Nat.add_mul] at h1
+    constructor <;> apply key <;>
+      simp only [decide_eq_true_eq, Bool.and_eq_true, beq_iff_eq, bne_iff_ne, ne_eq, true_and] <;>
+      constructor <;> intro h <;> omega
+
+
+theorem or_one_shiftLeft {f k : Nat} (hf : f < 2 ^ k) : f ||| 1 <<< k = f + 2 ^ k := by
+  have := Nat.two_pow_add_eq_or_of_lt hf 1
+  rw [Nat.mul_one] at this
+  rw [Nat.one_shiftLeft, Nat.or_comm, ← this, Nat.add_comm]
+
+theorem normalised_normal {F : FloatFmt} (hF : F.Valid) {x : Nat} (hx : x < 2 ^ F.bits)
+    (hE : expField F.spec x ≠ 0) :
+    intoNormalisedSignedParts F x =
+      (signOf F.spec x, (expField F.spec x : Int) - bias F, fracField F.spec x + 2 ^ (F.p - 1)) := by
+  obtain ⟨_, hf, _, hraw⟩ := fields hF hx
+  have hp := hF.hp
+  unfold intoNormalisedSignedParts intoSignedParts intoSignedBiasedParts intoBiasedParts
+  rw [hraw]; simp only [hE, if_false]
+  rw [or_one_shiftLeft hf]
+  have hm1 : 2 ^ (F.p - 1) ≤ fracField F.spec x + 2 ^ (F.p - 1) := by omega
+  have hm2 : fracField F.spec x + 2 ^ (F.p - 1) < 2 ^ (F.p - 1 + 1) := by rw [Nat.pow_succ]; omega
+  have hsz : bitsOf (fracField F.spec x + 2 ^ (F.p - 1)) = F.p := by
+    rw [bitsOf_eq_size, size_eq_of_bounds hm1 hm2]; omega
+  rw [hsz]; simp
+
+theorem normalised_subnormal {F : FloatFmt} (hF : F.Valid) {x : Nat} (hx : x < 2 ^ F.bits)
+    (hE : expField F.spec x = 0) :
+    ∃ e m, intoNormalisedSignedParts F x = (signOf F.spec x, e, m) ∧ (m = 0 ∨ e ≤ -1) := by
+  obtain ⟨_, hf, _, hraw⟩ := fields hF hx
+  obtain ⟨hem2, hem4, hem30⟩ := emax_facts hF
+  have hp := hF.hp
+  unfold intoNormalisedSignedParts intoSignedParts intoSignedBiasedParts intoBiasedParts
+  rw [hraw]; simp only [hE, if_true]
+  split
+  · next h =>
+    refine ⟨_, _, rfl, ?_⟩
+    simp only [Bool.or_eq_true, decide_eq_true_eq] at h
+    rcases h with h | h
+    · exact Or.inl h
+    · exfalso
+      have : bitsOf (fracField F.spec x) ≤ F.p - 1 := by rw [bitsOf_eq_size]; exact size_le_iff.2 hf
+      omega
+  · refine ⟨_, _, rfl, Or.inr ?_⟩
+    unfold bias; omega
+
+theorem truncMag_of_le {p m e : Nat} (hp : 1 ≤ p) (h : e ≤ p - 1) :
+    truncMag m ((e : Int) - ((p : Int) - 1)) = m / 2 ^ (p - 1 - e) := by
+  unfold truncMag
+  by_cases h' : (e : Int) - ((p : Int) - 1) ≥ 0
+  · have he : ((e : Int) - ((p : Int) - 1)).toNat = 0 := by omega
+    have he' : p - 1 - e = 0 := by omega
+    simp only [h', if_true, he, he']; simp
+  · have he : (-((e : Int) - ((p : Int) - 1))).toNat = p - 1 - e := by omega
+    simp only [h', if_false, he]
+
+theorem truncMag_of_ge {p m e : Nat} (hp : 1 ≤ p) (h : p - 1 ≤ e) :
+    truncMag m ((e : Int) - ((p : Int) - 1)) = m * 2 ^ (e - (p - 1)) := by
+  unfold truncMag
+  have h' : (e : Int) - ((p : Int) - 1) ≥ 0 := by omega
+  have he : ((e : Int) - ((p : Int) - 1)).toNat = e - (p - 1) := by omega
+  simp only [h', if_true, he]
+
+/-- size of `⌊m·2^(e-(p-1))⌋` for a normalised significand -/
+theorem truncMag_bounds {p m : Nat} (e : Nat) (hp : 1 ≤ p) (h1 : 2 ^ (p - 1) ≤ m) (h2 : m < 2 ^ p) :
+    2 ^ e ≤ truncMag m ((e : Int) - ((p : Int) - 1)) ∧ truncMag m ((e : Int) - ((p : Int) - 1)) < 2 ^ (e + 1) := by
+  by_cases h : p - 1 ≤ e
+  · rw [truncMag_of_ge hp h]
+    constructor
+    · rw [pow_split h]; exact Nat.mul_le_mul_right _ h1
+    · rw [pow_split (show p ≤ e + 1 by omega), show e + 1 - p = e - (p - 1) by omega]
+      exact Nat.mul_lt_mul_of_pos_right h2 (Nat.pow_pos (by decide))
+  · rw [truncMag_of_le hp (by omega)]
+    have hpos : 0 < 2 ^ (p - 1 - e) := Nat.pow_pos (by decide)
+    constructor
+    · rw [Nat.le_div_iff_mul_le hpos, ← Nat.pow_add]
+      rw [show e + (p - 1 - e) = p - 1 by omega]; exact h1
+    · rw [Nat.div_lt_iff_lt_mul hpos, ← Nat.pow_add]
+      rw [show e + 1 + (p - 1 - e) = p by omega]; exact h2
+
+/-- the final shift of `cast_uint_from_float` on a normalised significand -/
+theorem shiftMantissa_eq {p m : Nat} (W e : Nat) (hp : 1 ≤ p) (h1 : 2 ^ (p - 1) ≤ m) (h2 : m < 2 ^ p) :
+    shiftMantissa W (e : Int) m = min (truncMag m ((e : Int) - ((p : Int) - 1))) (2 ^ W - 1) := by
+  obtain ⟨hb1, hb2⟩ := truncMag_bounds e hp h1 h2
+  have hsz : bitsOf m = p := by
+    rw [bitsOf_eq_size, size_eq_of_bounds (k := p - 1) h1 (by rw [show p - 1 + 1 = p by omega]; exact h2)]
+    omega
+  have hWpos : 0 < 2 ^ W := Nat.pow_pos (by decide)
+  unfold shiftMantissa
+  have hn : ¬ ((e : Int) < 0) := by omega
+  simp only [hn, if_false, Int.toNat_natCast, hsz]
+  by_cases hW : e ≥ W
+  · simp only [hW, if_true]
+    have : 2 ^ W ≤ 2 ^ e := Nat.pow_le_pow_right (by decide) hW
+    rw [Nat.min_eq_right (by omega)]
+  · simp only [hW, if_false]
+    have hlt : 2 ^ (e + 1) ≤ 2 ^ W := Nat.pow_le_pow_right (by decide) (by omega)
+    rw [Nat.min_eq_left (by omega)]
+    by_cases h : e ≤ p - 1
+    · simp only [h, if_true]
+      rw [truncMag_of_le hp h] at hb2 ⊢
+      rw [Nat.shiftRight_eq_div_pow]
+      exact Nat.mod_eq_of_lt (by omega)
+    · simp only [h, if_false]
+      rw [truncMag_of_ge hp (by omega)] at hb2 ⊢
+      have hmW : m < 2 ^ W := by
+        have : 2 ^ p ≤ 2 ^ W := Nat.pow_le_pow_right (by decide) (by omega)
+        omega
+      rw [Nat.mod_eq_of_lt hmW, Nat.shiftLeft_eq, Nat.mod_eq_of_lt (by omega)]
+
+
+/-- `⌊|value|⌋` of a finite pattern -/
+def truncOf (F : Spec.Fmt) (x : Nat) : Nat := truncMag (decodeFinite F x).1 (decodeFinite F x).2
+
+theorem truncOf_subnormal {F : FloatFmt} (hF : F.Valid) {x : Nat} (hx : x < 2 ^ F.bits)
+    (hE : expField F.spec x = 0) : truncOf F.spec x = 0 := by
+  obtain ⟨_, hf, _, _⟩ := fields hF hx
+  obtain ⟨hem2, hem4, hem30⟩ := emax_facts hF
+  have hp := hF.hp
+  unfold truncOf decodeFinite truncMag
+  simp only [hE, if_true]
+  show (if (2 - (F.emax : Int) - ((F.p : Int) - 1)) ≥ 0 then _ else _) = 0
+  have hneg : ¬ (2 - (F.emax : Int) - ((F.p : Int) - 1)) ≥ 0 := by omega
+  simp only [hneg, if_false]
+  have he : (-(2 - (F.emax : Int) - ((F.p : Int) - 1))).toNat = (F.p - 1) + (F.emax - 2) := by omega
+  show fracField F.spec x / 2 ^ (-(2 - (F.emax : Int) - ((F.p : Int) - 1))).toNat = 0
+  rw [he]
+  apply Nat.div_eq_of_lt
+  have : 2 ^ (F.p - 1) ≤ 2 ^ (F.p - 1 + (F.emax - 2)) := Nat.pow_le_pow_right (by decide) (by omega)
+  omega
+
+theorem truncOf_normal {F : FloatFmt} {x : Nat} (hE : expField F.spec x ≠ 0) :
+    truncOf F.spec x = truncMag (fracField F.spec x + 2 ^ (F.p - 1))
+      ((expField F.spec x : Int) - bias F - ((F.p : Int) - 1)) := by
+  unfold truncOf decodeFinite bias
+  simp only [hE, if_false]; rfl
+
+theorem truncMag_small {p m : Nat} {e : Int} (hp : 1 ≤ p) (h2 : m < 2 ^ p) (he : e ≤ -1) :
+    truncMag m (e - ((p : Int) - 1)) = 0 := by
+  unfold truncMag
+  have hneg : ¬ (e - ((p : Int) - 1)) ≥ 0 := by omega
+  simp only [hneg, if_false]
+  apply Nat.div_eq_of_lt
+  have : 2 ^ p ≤ 2 ^ (-(e - ((p : Int) - 1))).toNat := Nat.pow_le_pow_right (by decide) (by omega)
+  omega
+
+/-- `cast_uint_from_float` in terms of the decoded float -/
+theorem castUintFromFloat_eq {F : FloatFmt} (hF : F.Valid) (W : Nat) {x : Nat} (hx : x < 2 ^ F.bits) :
+    castUintFromFloat F W x =
+      if Spec.isNaN F.spec x then 0
+      else if signOf F.spec x then 0
+      else if Spec.isInf F.spec x then 2 ^ W - 1
+      else min (truncOf F.spec x) (2 ^ W - 1) := by
+  obtain ⟨hElt, hf, _, _⟩ := fields hF hx
+  obtain ⟨hem2, hem4, hem30⟩ := emax_facts hF
+  obtain ⟨hnan, hinf⟩ := nan_inf_iff hF hx
+  have hp := hF.hp
+  unfold castUintFromFloat
+  rw [hnan, hinf]
+  by_cases hn : Spec.isNaN F.spec x = true
+  · simp [hn]
+  simp only [hn, Bool.false_eq_true, if_false]
+  by_cases hE : expField F.spec x = 0
+  · obtain ⟨e, m, hnorm, hcase⟩ := normalised_subnormal hF hx hE
+    rw [hnorm]; simp only
+    have hninf : Spec.isInf F.spec x = false := by
+      unfold Spec.isInf; rw [hE]
+      show ((0 : Nat) == 2 * F.emax - 1 && _) = false
+      have : ((0 : Nat) == 2 * F.emax - 1) = false := by simp; omega
+      rw [this]; rfl
+    rw [truncOf_subnormal hF hx hE, hninf]
+    by_cases hs : signOf F.spec x = true
+    · simp [hs]
+    · simp only [hs, Bool.false_eq_true, if_false, Nat.zero_min]
+      rcases hcase with h | h
+      · simp [h]
+      · simp [h]
+  · rw [normalised_normal hF hx hE, truncOf_normal hE]; simp only
+    by_cases hs : signOf F.spec x = true
+    · simp [hs]
+    simp only [hs, Bool.false_eq_true, if_false]
+    by_cases hi : Spec.isInf F.spec x = true
+    · simp [hi]
+    simp only [hi, Bool.false_eq_true, if_false]
+    have hm1 : 2 ^ (F.p - 1) ≤ fracField F.spec x + 2 ^ (F.p - 1) := by omega
+    have hm2 : fracField F.spec x + 2 ^ (F.p - 1) < 2 ^ F.p := by
+      rw [pow_split (show F.p - 1 ≤ F.p by omega), show F.p - (F.p - 1) = 1 by omega]; omega
+    have hm0 : fracField F.spec x + 2 ^ (F.p - 1) ≠ 0 := by
+      have := Nat.pow_pos (n := F.p - 1) (show 0 < 2 by decide); omega
+    simp only [hm0, if_false]
+    by_cases hneg : (expField F.spec x : Int) - bias F ≤ -1
+    · rw [if_pos hneg, truncMag_small (by omega) hm2 hneg]; simp
+    · rw [if_neg hneg]
+      have hcast : (expField F.spec x : Int) - bias F = ((expField F.spec x - (F.emax - 1) : Nat) : Int) := by
+        unfold bias at *; omega
+      rw [hcast]
+      exact shiftMantissa_eq W _ (by omega) hm1 hm2
+
+
+theorem wrapU_nonneg {m : Nat} {z : Int} (h0 : 0 ≤ z) (h1 : z < m) : wrapU m z = z.toNat := by
+  unfold wrapU; rw [Int.emod_eq_of_lt h0 h1]
+
+theorem wrapU_neg {m : Nat} {z : Int} (h0 : -(m : Int) ≤ z) (h1 : z < 0) : wrapU m z = (z + m).toNat := by
+  unfold wrapU
+  rw [← Int.add_emod_right, Int.emod_eq_of_lt (by omega) (by omega)]
+
+/-- unsigned clamp of a non-negative integer -/
+theorem clampU_pos {m : Nat} (hm : 0 < m) (t : Nat) : wrapU m (clamp false m (t : Int)) = min t (m - 1) := by
+  unfold clamp minV maxV; simp only [Bool.false_eq_true, if_false]
+  by_cases h : (t : Int) > (m : Int) - 1
+  · have h' : ¬ (t : Int) < 0 := by omega
+    simp only [h', h, if_true, if_false]; rw [wrapU_nonneg (by omega) (by omega)]; omega
+  · have h' : ¬ (t : Int) < 0 := by omega
+    simp only [h', h, if_false]; rw [wrapU_nonneg (by omega) (by omega)]; omega
+
+theorem clampU_neg {m : Nat} (hm : 0 < m) (t : Nat) : wrapU m (clamp false m (-(t : Int))) = 0 := by
+  unfold clamp minV maxV; simp only [Bool.false_eq_true, if_false]
+  by_cases h : -(t : Int) < 0
+  · simp only [h, if_true]; rfl
+  · have h' : ¬ (-(t : Int) > (m : Int) - 1) := by omega
+    simp only [h, h', if_false]; rw [wrapU_nonneg (by omega) (by omega)]; omega
+
+theorem buintFromFloat_spec {F : FloatFmt} (hF : F.Valid) (W : Nat) {x : Nat} (hx : x < 2 ^ F.bits) :
+    buintFromFloat F W x = Spec.floatToInt F.spec false (2 ^ W) x := by
+  have hm : 0 < 2 ^ W := Nat.pow_pos (by decide)
+  unfold buintFromFloat Spec.floatToInt
+  rw [castUintFromFloat_eq hF W hx]
+  by_cases hn : Spec.isNaN F.spec x = true
+  · simp [hn]
+  simp only [hn, Bool.false_eq_true, if_false]
+  by_cases hs : signOf F.spec x = true
+  · simp only [hs, if_true]
+    by_cases hi : Spec.isInf F.spec x = true
+    · simp only [hi, if_true, minV, Bool.false_eq_true, if_false]; rfl
+    · simp only [hi, Bool.false_eq_true, if_false]
+      exact (clampU_neg hm _).symm
+  · simp only [hs, Bool.false_eq_true, if_false]
+    by_cases hi : Spec.isInf F.spec x = true
+    · simp only [hi, if_true, maxV, Bool.false_eq_true, if_false]
+      rw [wrapU_nonneg (by omega) (by omega)]; omega
+    · simp only [hi, Bool.false_eq_true, if_false]
+      exact (clampU_pos hm _).symm
+
+
 end Flt
 end Bnum
